@@ -86,7 +86,8 @@ def gen_g(r, name):
     """(src, params [(name, type)], args [(name, type)], ret, template, defs)"""
     t = wchoice(r, [("mix", 5), ("loop_sum", 1), ("bool_list", 1.2), ("lookup", 1), ("tuple", 1), ("const_index", 0.5), ("range", 0.4), ("with_def", 1.5), ("ifstmt", 1), ("list_tuples", 0.5),
                     ("builtins", 1.5), ("two_lists", 0.8), ("inner_def", 1.2), ("minmax", 0.6),
-                    ("unpack", 0.8), ("enum_loop", 0.8), ("forward", 0.8), ("double_index", 0.6), ("augassign", 0.6), ("multi_assign", 1.0)])
+                    ("unpack", 0.8), ("enum_loop", 0.8), ("forward", 0.8), ("double_index", 0.6), ("augassign", 0.6), ("multi_assign", 1.0),
+                    ("reassign", 0.8), ("iterate_twice", 0.8), ("branch_const", 0.8), ("prefix_names", 0.6)])
     defs = []
     if t == "mix":
         # 1-4 parameters interleaved anywhere in the signature with 1-3 real arguments
@@ -175,6 +176,23 @@ def gen_g(r, name):
         else:
             params, args, ret = [("k", "bool"), ("m", "bool")], [("a", "bool"), ("b", "bool")], "bool"
             src = f"def {name}(k: Parameter[bool], a: bool, b: bool, m: Parameter[bool]) -> bool:\n    a, b, c = a ^ k, b ^ a, a and m\n    return (a ^ b) or c\n"
+    elif t == "reassign":
+        params, args, ret = [("p", "bool"), ("k", "Qint[2]")], [("a", "bool"), ("x", "Qint[2]")], "bool"
+        form = r.randrange(3)
+        body = ["    q = p\n    return (q and a) ^ (x == k)\n", "    j = k\n    q = p\n    return (x < j) or (q ^ a)\n", "    q = p\n    q = q ^ a\n    return q and (x != k)\n"][form]
+        src = f"def {name}(a: bool, p: Parameter[bool], x: Qint[2], k: Parameter[Qint[2]]) -> bool:\n{body}"
+    elif t == "iterate_twice":
+        n = r.randint(2, 3)
+        params, args, ret = [("p", f"Qlist[bool, {n}]")], [("a", "bool"), ("b", "bool")], "bool"
+        src = (f"def {name}(p: Parameter[Qlist[bool, {n}]], a: bool, b: bool) -> bool:\n    r = a\n    for v in p:\n        r = r ^ v\n"
+               f"    for v in p:\n        r = (r or v) and b\n    return r\n")
+    elif t == "branch_const":
+        params, args, ret = [("p", "bool"), ("q", "bool")], [("a", "bool"), ("b", "bool")], "bool"
+        src = (f"def {name}(p: Parameter[bool], a: bool, q: Parameter[bool], b: bool) -> bool:\n    t = q\n    if a:\n        t = p\n    else:\n        t = not p\n"
+               f"    return (t ^ b) or (q and a)\n")
+    elif t == "prefix_names":
+        params, args, ret = [("p", "bool"), ("p1", "bool"), ("p10", "Qint[2]")], [("a", "bool"), ("x", "Qint[2]")], "bool"
+        src = f"def {name}(p1: Parameter[bool], a: bool, p: Parameter[bool], x: Qint[2], p10: Parameter[Qint[2]]) -> bool:\n    return ((p and a) ^ p1) or (x == p10)\n"
     elif t == "unpack":
         params, args, ret = [("p", "Tuple[bool, bool]")], [("a", "bool")], "bool"
         src = f"def {name}(p: Parameter[Tuple[bool, bool]], a: bool) -> bool:\n    x, y = p\n    return (x and a) ^ y\n"
